@@ -8,6 +8,7 @@
    tie-break (Go map order) are inputs chosen by the environment, so "forall acts" covers every
    stream of well- or ill-formed datagrams from any sources at any times. *)
 From Hy Require Import model.C14_Gecko proof.C14_Gecko proof.C14_Sender proof.C14_Recv proof.C14_Round proof.C14_WriteErr.
+From Hy Require Import corr.C14_Corr proof.C14_Isolation.
 From Coq Require Import ZArith.
 Local Open Scope Z_scope.
 
@@ -199,3 +200,41 @@ Theorem C14_no_lockout : forall rbuf acts now src dg choice h pl,
      step rbuf st (Packet now src dg choice) = (st, None)).
 Proof. exact no_lockout. Qed.
 Print Assumptions C14_no_lockout.
+
+(* Source names are String() values.  The correspondence check gives the rows of a case's source-address
+   table (names = the String() of each row as the Go standard library computed it) their model name through
+   src_name: two rows get the SAME name exactly when their strings are equal - so addresses that differ only
+   in the IPv6 zone, the port, one address byte, the Go type behind net.Addr ... are different sources as soon
+   as String() differs, and addresses with one String() (an IPv4 address and its IPv4-mapped form, a
+   *net.UDPAddr and a custom net.Addr printing the same text) are one source - and every row has a name. *)
+Theorem C14_source_names : forall names i j a b,
+  names <> [] -> src_name names i = Some a -> src_name names j = Some b ->
+  (a = b <-> nth_error names (N.to_nat i) = nth_error names (N.to_nat j)).
+Proof. exact src_name_inj. Qed.
+Print Assumptions C14_source_names.
+
+(* Cross-source interleaving.  From ANY reachable state and for ANY history acts (any datagrams - well-formed
+   or not, equal message ids, equal chunk counts -, any source names, any times and gc ticks, any interleaving)
+   that keeps the table below the global cap of 4096 (where the oldest-entry eviction, by design, couples the
+   sources): delete from the history every datagram whose source name differs from s.  Then the receiver
+   returns, at the positions of the datagrams of s and of the ticks, exactly what it returned in the full
+   history (outs_of = those positions), it holds exactly the same pending messages for s (every message id),
+   and the per-source budget of s is the same.  Source names are only ever compared for equality. *)
+Theorem C14_source_isolation : forall rbuf s acts0 acts,
+  let st := fst (run rbuf r_init acts0) in
+  zlen (tbl st) + zlen acts < 4096 ->
+  let full := run rbuf st acts in
+  let alone := run rbuf st (filter (of_src s) acts) in
+  outs_of s acts (snd full) = snd alone /\
+  (forall m, tget (s, m) (fst full) = tget (s, m) (fst alone)) /\
+  pget s (fst full) = pget s (fst alone).
+Proof. exact source_isolation. Qed.
+Print Assumptions C14_source_isolation.
+
+(* Attribution: whatever is returned for source s is returned at the position of a datagram that came from s
+   (any state, any history, caps and evictions included). *)
+Theorem C14_output_attribution : forall rbuf acts st s b n,
+  nth_error (snd (run rbuf st acts)) n = Some (Some (s, b)) ->
+  exists a, nth_error acts n = Some a /\ of_src s a = true.
+Proof. exact outs_attributed. Qed.
+Print Assumptions C14_output_attribution.
